@@ -317,7 +317,7 @@ func init() {
 		NumBatches: func(tier string, seed int64) int {
 			n := len(pathAlphabet)
 			if tier == "thorough" {
-				return n*n + 512
+				return n*n + 4096
 			}
 			return n + 96
 		},
